@@ -34,7 +34,7 @@ ASSUMPTIONS = [
     'K6 (cached Collective keeps its Jumps alive) tolerated only for a Jumps on which collective() was called, when every non-frame referrer is the __dict__ of a Collective (or of the surviving Jumps for its Transitions)',
 ]
 N_CASES = {'quick': 200, 'thorough': 4000}
-BUDGET_S = {'quick': 230, 'thorough': 2700}
+BUDGET_S = {'quick': 230, 'thorough': 3600}
 K6 = 'K6-cached-collective-pins-jumps'
 
 
